@@ -30,8 +30,15 @@ RECURSIVE IPow(_, _)
 IPow(a, n) == IF n = 0 THEN 1 ELSE a * IPow(a, n - 1)
 
 \* ---------- lattice ----------
-\* N = <<nx, ny, nz>> cells; a field is a function on Idx(N) = components 0..2 x cells
-Idx(N) == { <<p, x, y, z>> : p \in 0..2, x \in 0..(N[1]-1), y \in 0..(N[2]-1), z \in 0..(N[3]-1) }
+\* N = <<nx, ny, nz>> cells.  A field is a sequence of Size(N) Gaussian integers in the memory order of the
+\* implementation's (3, nx, ny, nz) arrays (C order):  index = Lin(p, x, y, z, N),  p = component 0..2
+Cells(N)  == N[1] * N[2] * N[3]
+Size(N)   == 3 * Cells(N)
+Lin(p, x, y, z, N) == ((p * N[1] + x) * N[2] + y) * N[3] + z + 1
+Stride(N, a) == IF a = 1 THEN N[2] * N[3] ELSE IF a = 2 THEN N[3] ELSE 1
+Coord(i, N, a) == ((i - 1) \div Stride(N, a)) % N[a]          \* a in 1..3
+Comp(i, N)  == (i - 1) \div Cells(N)
+At(i, p, N) == i + (p - Comp(i, N)) * Cells(N)                  \* component p at the cell of index i
 Mul3(N, M) == << N[1] * M[1], N[2] * M[2], N[3] * M[3] >>
 
 \* Variant selects the padding / phase convention:
@@ -40,46 +47,48 @@ Mul3(N, M) == << N[1] * M[1], N[2] * M[2], N[3] * M[3] >>
 \*   "no_conj"      conj dropped: both ghosts *= phase
 \*   "wrap_swapped" wrap order swapped: min ghost reads cell 0, max ghost reads cell n-1
 \*   "L_short"      handled by the caller (phase computed from n-1 cells)
-WrapC(q, n, variant) ==
-    IF q = -1 THEN (IF variant = "wrap_swapped" THEN 0 ELSE n - 1)
-    ELSE IF q = n THEN (IF variant = "wrap_swapped" THEN n - 1 ELSE 0)
-    ELSE q
 GhostFac(q, n, ph, variant) ==
     IF q = -1 THEN (IF variant \in {"swap_ghost", "no_conj"} THEN ph ELSE GConj(ph))
     ELSE IF q = n THEN (IF variant = "swap_ghost" THEN GConj(ph) ELSE ph)
     ELSE One
 
-\* padded read: c = <<x, y, z>> may lie one cell outside the lattice on any axis
-Rd(F, p, c, N, PH, variant) ==
-    LET fac == GMul(GhostFac(c[1], N[1], PH[1], variant),
-               GMul(GhostFac(c[2], N[2], PH[2], variant), GhostFac(c[3], N[3], PH[3], variant)))
-    IN  GMul(fac, F[<< p, WrapC(c[1], N[1], variant), WrapC(c[2], N[2], variant), WrapC(c[3], N[3], variant) >>])
+\* padded read: the entry one cell (d = +1 / -1) away from index i along axis a.  Inside the lattice that is
+\* i + d*stride; the ghost cell -1 wraps to cell n-1 and the ghost cell n to cell 0 (jnp.pad "wrap"), times the
+\* ghost phase.  Only axis a can leave the lattice (the curl never reads corner ghosts).
+RdAx(F, i, a, d, N, PH, variant) ==
+    LET q == Coord(i, N, a) + d
+    IN  IF q >= 0 /\ q < N[a] THEN F[i + d * Stride(N, a)]
+        ELSE GMul(GhostFac(q, N[a], PH[a], variant),
+                  F[IF variant = "wrap_swapped" THEN i ELSE i - d * (N[a] - 1) * Stride(N, a)])
 
-Shift(c, a, d) == [ c EXCEPT ![a] = @ + d ]
-\* forward / backward difference of component p along axis a (1..3) at cell c
-DFwd(F, p, c, a, N, PH, v) == GSub(Rd(F, p, Shift(c, a, 1), N, PH, v), F[<< p, c[1], c[2], c[3] >>])
-DBwd(F, p, c, a, N, PH, v) == GSub(F[<< p, c[1], c[2], c[3] >>], Rd(F, p, Shift(c, a, -1), N, PH, v))
-\* curl_p = d_{p+1} F_{p+2} - d_{p+2} F_{p+1}   (cyclic; axis numbers are component + 1)
-CurlBwd(F, p, c, N, PH, v) == GSub(DBwd(F, (p + 2) % 3, c, ((p + 1) % 3) + 1, N, PH, v),
-                                   DBwd(F, (p + 1) % 3, c, ((p + 2) % 3) + 1, N, PH, v))
-CurlFwd(F, p, c, N, PH, v) == GSub(DFwd(F, (p + 2) % 3, c, ((p + 1) % 3) + 1, N, PH, v),
-                                   DFwd(F, (p + 1) % 3, c, ((p + 2) % 3) + 1, N, PH, v))
+\* forward / backward difference along axis a of the entry with index i
+DFwd(F, i, a, N, PH, v) == GSub(RdAx(F, i, a, 1, N, PH, v), F[i])
+DBwd(F, i, a, N, PH, v) == GSub(F[i], RdAx(F, i, a, -1, N, PH, v))
+\* curl_p = d_{p+1} F_{p+2} - d_{p+2} F_{p+1}   (cyclic; axis number = component + 1), at the cell of index i
+CurlBwd(F, i, N, PH, v) ==
+    LET p == Comp(i, N)
+    IN  GSub(DBwd(F, At(i, (p + 2) % 3, N), ((p + 1) % 3) + 1, N, PH, v),
+             DBwd(F, At(i, (p + 1) % 3, N), ((p + 2) % 3) + 1, N, PH, v))
+CurlFwd(F, i, N, PH, v) ==
+    LET p == Comp(i, N)
+    IN  GSub(DFwd(F, At(i, (p + 2) % 3, N), ((p + 1) % 3) + 1, N, PH, v),
+             DFwd(F, At(i, (p + 1) % 3, N), ((p + 2) % 3) + 1, N, PH, v))
 
 \* update_E / update_H of one lattice (mat = integer coefficient c*inv_eps per component and cell; c*inv_mu = 1)
-StepE(E, H, mat, N, PH, v) ==
-    [ i \in Idx(N) |-> GAdd(E[i], GScale(mat[i], CurlBwd(H, i[1], << i[2], i[3], i[4] >>, N, PH, v))) ]
-StepH(E, H, N, PH, v) ==
-    [ i \in Idx(N) |-> GSub(H[i], CurlFwd(E, i[1], << i[2], i[3], i[4] >>, N, PH, v)) ]
+StepE(E, H, mat, N, PH, v) == [ i \in 1..Size(N) |-> GAdd(E[i], GScale(mat[i], CurlBwd(H, i, N, PH, v))) ]
+StepH(E, H, N, PH, v)      == [ i \in 1..Size(N) |-> GSub(H[i], CurlFwd(E, i, N, PH, v)) ]
 
 \* ---------- the supercell relation ----------
+\* index in the N-cell lattice of which big-lattice index I (lattice N*M) is a copy, and the copy number per axis
+SrcIdx(I, N, M) == LET NB == Mul3(N, M)
+                   IN  Lin(Comp(I, NB), Coord(I, NB, 1) % N[1], Coord(I, NB, 2) % N[2], Coord(I, NB, 3) % N[3], N)
+CopyNo(I, N, M, a) == Coord(I, Mul3(N, M), a) \div N[a]
 \* copy j = <<jx, jy, jz>> of the N-cell field carries the phase prod_a PHI[a]^j[a]
 TilePhase(j, PHI) == GMul(GPow(PHI[1], j[1]), GMul(GPow(PHI[2], j[2]), GPow(PHI[3], j[3])))
 TileOf(F, N, M, PHI) ==
-    [ i \in Idx(Mul3(N, M)) |->
-        GMul(TilePhase(<< i[2] \div N[1], i[3] \div N[2], i[4] \div N[3] >>, PHI),
-             F[<< i[1], i[2] % N[1], i[3] % N[2], i[4] % N[3] >>]) ]
-MatTile(mat, N, M) ==
-    [ i \in Idx(Mul3(N, M)) |-> mat[<< i[1], i[2] % N[1], i[3] % N[2], i[4] % N[3] >>] ]
+    [ I \in 1..Size(Mul3(N, M)) |->
+        GMul(TilePhase(<< CopyNo(I, N, M, 1), CopyNo(I, N, M, 2), CopyNo(I, N, M, 3) >>, PHI), F[SrcIdx(I, N, M)]) ]
+MatTile(mat, N, M) == [ I \in 1..Size(Mul3(N, M)) |-> mat[SrcIdx(I, N, M)] ]
 TileRel(FB, FS, N, M, PHI) == FB = TileOf(FS, N, M, PHI)
 \* phase applied at the boundary of the m*N-cell domain
 BigPhase(PHI, M) == << GPow(PHI[1], M[1]), GPow(PHI[2], M[2]), GPow(PHI[3], M[3]) >>
